@@ -209,6 +209,9 @@ def _canon_flat(root):
     stack = [root]
     close = object()
     while stack:
+        if len(out) > 100000:
+            out.append("...")       # huge or CYCLIC value (CBOR shared references can build a list containing itself)
+            break
         v = stack.pop()
         if v is close:
             out.append(")")
@@ -259,11 +262,19 @@ def _canon(v):
 
 
 def clone(v):
-    """Structural copy (lists/dicts rebuilt, leaves shared): what a fresh deserialization would deliver."""
+    """Structural copy (lists/dicts rebuilt, leaves shared): what a fresh deserialization would deliver.
+    Values too deep (or cyclic) to copy recursively are returned as they are."""
+    try:
+        return _clone(v)
+    except RecursionError:
+        return v
+
+
+def _clone(v):
     if type(v) is list:
-        return [clone(x) for x in v]
+        return [_clone(x) for x in v]
     if type(v) is dict:
-        return {k: clone(x) for k, x in v.items()}
+        return {k: _clone(x) for k, x in v.items()}
     return v
 
 
